@@ -15,4 +15,5 @@ const AutoYield = true
 func installAuto() {
 	jsimy.Hook = func(site string) { engine.HookYield(site, nil) }
 	jsimy.LockHook = engine.HookLockWait
+	jsimy.QuietHook = engine.HookQuiet
 }
